@@ -39,7 +39,8 @@ def minimums(tier):
             "junk.edit": 300, "junk.hostile-json": 50, "mode.-a": 100, "mode.-l": 100, "mode.-n": 100, "mode.-j": 100, "mode.--plid": 30,
             "mode.--src": 30, "mode.--src-exclude": 30, "mode.-a -x": 30, "mode.-l -x": 30, "sub.relations_checked": 40,
             "junk.nested_dir": 100, "junk.symlink_to_dir": 50, "junk.dir_named_with_extension": 30,
-            "mode.with_extension_filter": 60, "sub.good_pel_with_unencodable_text": 4}
+            "mode.with_extension_filter": 60, "sub.good_pel_with_unencodable_text": 4,
+            "junk.sibling_of_good_pel": 150, "sub.sibling_junk": 8}
 
 
 def classify(data, cls):
@@ -140,11 +141,26 @@ def run_sub(spec, ctx, rng, u, reg, root):
         if all(e.name != nm for e in good):
             good.append(dirs.Entry(nm, odd, odd.encode()))
             ctx.count("sub.good_pel_with_unencodable_text")
+        # a good BMC PEL whose reference code names a component with an installed SRC parser (hardware diagnostics), and -
+        # as junk - its sibling: the same log as a hostboot-type code (BC: other parser routing), cut short after the SRC
+        ref = "BD8DE5%02X" % rng.randrange(256)
+        hw = pm.Pel("O", pm.gen_ph(rng, u, "O"), pm.gen_uh(rng, "O", sev=0x40, flags=0xA000),
+                    [pm.gen_src(rng, u, True, "O", srctype="BD", refcode=ref, ncallouts=1), pm.gen_mt(rng, u, "O"),
+                     pm.sec_generic(rng, u, b"XX")])
+        hwname = "m_hwdiag_%d.pel" % i
+        if all(e.name != hwname for e in good):
+            good.append(dirs.Entry(hwname, hw, hw.encode()))
+        sib = bytearray(hw.encode())
+        off = hw.offsets()[2][0]
+        assert bytes(sib[off + 48:off + 50]) == b"BD", bytes(sib[off + 48:off + 56])
+        sib[off + 48:off + 50] = b"BC"
+        siblings = [("m_hwdiag_%d" % i, bytes(sib[:-6])), ("m_hwdiag_%d.pel.bak" % i, bytes(sib[:-1]))]
         clean = dirs.PelDir(os.path.join(root, "sclean"))
         clean.extend(good)
         dirty = dirs.PelDir(os.path.join(root, "sdirty"))
         for e in good:
             dirty.add(dirs.Entry(e.name, e.pel, e.data))
+
         junk = [(b"caf\xe9-notes.txt", b"hello world, this is not a PEL\n"), (b"\xff\xfe.bin", bytes(rng.randrange(256) for _ in range(60))),
                 (b"0_first.txt", b"PX" + bytes(40)), (b"zz_empty", b""), (b"m\xc3\xa9moire.pel", good[0].data[:30]),
                 (b"~latin1-\xe4\xf6\xfc", b"#!/bin/sh\necho junk\n")]
@@ -157,6 +173,16 @@ def run_sub(spec, ctx, rng, u, reg, root):
         for envx in ({}, {"PYTHONIOENCODING": "utf-8:strict"}, {"PYTHONIOENCODING": "ascii"}):
             for argv in (["-a"], ["-l"], ["-n"], ["-j"], ["--src", "B"], ["-a", "-x"]):
                 res = []
+                # the siblings are junk for the modes that decode a PEL in full (the summary modes stop after the SRC)
+                full_mode = argv[0] in ("-a", "-j")
+                for nm, dta in siblings:
+                    pth = os.path.join(dirty.root, nm)
+                    if full_mode:
+                        with open(pth, "wb") as f:
+                            f.write(dta)
+                        ctx.count("sub.sibling_junk")
+                    elif os.path.exists(pth):
+                        os.unlink(pth)
                 for dd in (clean, dirty):
                     out = os.path.join(root, "sout")
                     shutil.rmtree(out, ignore_errors=True)
@@ -238,6 +264,22 @@ def run(spec, ctx):
                 dirty.add(dirs.Entry(nm, None, dta, junk=True))
                 ctx.count("junk.files")
                 ctx.count("junk." + t)
+            if c == "full":
+                # siblings of the good PELs as junk: the same log with its reference code moved to another SRC type
+                # (BD <-> BC: same component, other parser routing) and cut short after the SRC - rejected by the full
+                # decode, but only after its SRC was looked at; sorts directly before / after its good twin
+                for e in good:
+                    ps = e.pel.primary_src()
+                    if ps is None or ps.m["ascii"][:2] not in ("BD", "BC") or len(e.pel.sections) < 2 or rng.random() < 0.4:
+                        continue
+                    off = [o for (o, _), sct in zip(e.pel.offsets(), e.pel.all_sections()) if sct is ps][0]
+                    sib = bytearray(e.data)
+                    sib[off + 48:off + 50] = b"BC" if ps.m["ascii"][:2] == "BD" else b"BD"
+                    sib = bytes(sib[:-rng.choice([1, 3, 6])])
+                    nm = rng.choice(["0_" + e.name, e.name[:-1] + chr(max(33, ord(e.name[-1]) - 1)) + "~", e.name + "~"])
+                    if classify(sib, "full") and not os.path.lexists(os.path.join(dirty.root, nm)) and "/" not in nm:
+                        dirty.add(dirs.Entry(nm, None, sib, junk=True))
+                        ctx.count("junk.sibling_of_good_pel")
             if rng.random() < 0.5:      # nested directory holding valid PELs: must be ignored
                 for e in dirs.gen_dir_model(rng, u, 2, reg=reg):
                     dirty.add(dirs.Entry("sub%d/%s" % (rnd, e.name), e.pel, e.data, junk=True))
